@@ -181,6 +181,10 @@ def run_spec(tr, dev0, slot_of_vol, checks=("read", "state")):
             # model (data blocks are written through, the entry is not) - no further claims about them
             for f in sp.open.values():
                 p_ = f["path"]
+                # a modification-time stamp that was never flushed is lost with the dropped manager (e.g. a zero-length
+                # write after the last flush: contents equal, entry not rewritten)
+                if p_ in sp.wstamp and not (p_ in sp.flushed and sp.flushed[p_][1] > sp.wstamp[p_][1]):
+                    sp.wstamp.pop(p_, None)
                 if p_ in sp.flushed and sp.flushed[p_][0] == bytes(sp.files.get(p_, b"")):
                     continue
                 if f["mode"] != "RO":
